@@ -223,3 +223,92 @@ def row_flow(ck, F):
                     ck.ob(R, "%s|new Row.%s|default-or-current" % (fn, f), ok,
                           "%s builds Row.%s (not the attribute being set) from %s" % (fn, f, sorted(sr)), fl, ln,
                           sample={"fn": fn, "field": f, "sources": sorted(map(str, sr))})
+
+
+# ------------------------------------------------------------------------------------------------ C30
+STYLE = "ironcalc_base::types::Style"
+CELLXFS = "ironcalc_base::types::CellXfs"
+STYLES = "ironcalc_base::types::Styles"
+STYLE_TO_XF = {"alignment": {"alignment"}, "quote_prefix": {"quote_prefix"}, "num_fmt": {"num_fmt_id"}, "fill": {"fill_id"},
+               "font": {"font_id"}, "border": {"border_id"}}
+STYLE_TO_POOL = {"num_fmt": "num_fmts", "fill": "fills", "font": "fonts", "border": "borders"}
+
+
+def cover_style(ck, F):
+    """COVER-style: interning reads every field of Style; read-back fills every field of Style from the same-named part
+    of the CellXfs record / the component pool it indexes."""
+    R = "COVER-style"
+    sadt = ck.need(F.adt, "types::Style")
+    fields = [f["name"] for f in sadt["variants"][0]["fields"]]
+    ck.ob(R, "Style|fields-known", sorted(fields) == sorted(STYLE_TO_XF), "Style has fields %s; the rule knows %s" % (fields, sorted(STYLE_TO_XF)),
+          sadt.get("file", ""), sadt.get("line", 0))
+    # (a) interning side reads every field
+    read = set()
+    for qn in ("types::Styles::create_new_style", "types::Styles::get_or_create_component_ids"):
+        b = ck.need(F.one, qn)
+        for bi, si, p, role in all_places(b):
+            for e in place_proj(p):
+                if e[0] == "f" and e[3] == STYLE:
+                    read.add(e[2])
+    for f in fields:
+        ck.ob(R, "create_new_style|reads Style.%s" % f, f in read,
+              "interning a style never reads Style.%s: two styles differing only in %s would share one record" % (f, f), sample={"field": f, "read": f in read})
+    # the CellXfs record built by create_new_style takes each part from the style / the ids computed from it
+    cn = F.one("types::Styles::create_new_style")
+    for bi, si, s in cn.stmts():
+        rv = s["rv"]
+        if rv["k"] == "agg" and rv.get("adt") == CELLXFS:
+            ops = dict(zip(rv["fields"], rv["ops"]))
+            for sf, xfs in STYLE_TO_XF.items():
+                for xf in xfs:
+                    sr = sources(cn, ops[xf])
+                    ok = ("field", STYLE, sf) in sr or any(x[0] == "call" and x[1].endswith("get_or_create_component_ids") for x in sr)
+                    ck.ob(R, "create_new_style|CellXfs.%s<-Style.%s" % (xf, sf), ok,
+                          "create_new_style stores CellXfs.%s from %s, not from Style.%s" % (xf, sorted(map(str, sr)), sf), *cn.loc(bi, si))
+    # (b) read-back side
+    for qn in ("types::Styles::get_style", "types::Styles::get_style_index"):
+        b = ck.need(F.one, qn)
+        aggs = [(bi, si, s) for bi, si, s in b.stmts() if s["rv"]["k"] == "agg" and s["rv"].get("adt") == STYLE]
+        ck.ob(R, "%s|builds-Style" % b.name, len(aggs) == 1, "%s builds %d Style values" % (b.name, len(aggs)), b.file, b.line)
+        for bi, si, s in aggs:
+            ops = dict(zip(s["rv"]["fields"], s["rv"]["ops"]))
+            for sf in fields:
+                sr = sources(b, ops[sf])
+                # a lookup helper (get_num_fmt(id, &pool)): the arguments are what is read
+                if any(x[0] == "call" and x[1].endswith("::get_num_fmt") for x in sr):
+                    for cb, t in b.calls_to("number_format::get_num_fmt"):
+                        for a in t["args"]:
+                            sr = sr | sources(b, a)
+                xf_ok = any(x[0] == "field" and x[1] == CELLXFS and x[2] in STYLE_TO_XF[sf] for x in sr)
+                other_xf = [x for x in sr if x[0] == "field" and x[1] == CELLXFS and x[2] not in STYLE_TO_XF[sf]]
+                pool = STYLE_TO_POOL.get(sf)
+                pool_ok = pool is None or any(x[0] == "field" and x[1] == STYLES and x[2] == pool for x in sr)
+                other_pool = [x for x in sr if x[0] == "field" and x[1] == STYLES and x[2] != pool and x[2] != "cell_xfs"]
+                f, l = b.loc(bi, si)
+                ck.ob(R, "%s|Style.%s" % (b.name, sf), xf_ok and pool_ok and not other_xf and not other_pool,
+                      "%s fills Style.%s from %s; expected CellXfs.%s%s" % (b.name, sf, sorted(map(str, sr)), sorted(STYLE_TO_XF[sf]), " through Styles.%s" % pool if pool else ""),
+                      f, l, sample={"fn": b.name, "field": sf, "sources": sorted(map(str, sr))})
+    # (c) both num-fmt lookups consult the same constant table
+    a = ck.need(F.one, "number_format::get_default_num_fmt_id")
+    g = ck.need(F.one, "number_format::get_num_fmt")
+
+    def consts(b):
+        out = set()
+        from mir import rvalue_operands, term_operands
+        for blk in b.blocks:
+            ops = []
+            for s_ in blk["s"]:
+                ops.extend(rvalue_operands(s_["rv"]))
+            ops.extend(term_operands(blk["t"]))
+            for o in ops:
+                k = o.get("k")
+                if k and k.get("cdef"):
+                    out.add(k["cdef"])
+        return out
+    ca, cg = consts(a), consts(g)
+    ck.ob(R, "num_fmt|same-table", bool(ca & cg) and any(c.endswith("DEFAULT_NUM_FMTS") for c in ca & cg),
+          "get_default_num_fmt_id uses %s, get_num_fmt uses %s: the id<->code lookups must share one table" % (sorted(ca), sorted(cg)), a.file, a.line,
+          sample={"id_lookup": sorted(ca), "code_lookup": sorted(cg)})
+    # first-match shape: get_default_num_fmt_id returns inside the loop on equality
+    eqs = [bi for bi, t in a.calls() if (a.callee_q(t) or "").rsplit("::", 1)[-1] == "eq"]
+    ck.ob(R, "get_default_num_fmt_id|first-match", len(eqs) == 1, "expected one equality test in a first-match loop", a.file, a.line)
